@@ -20,6 +20,7 @@ from ..engine.env import numpy_random_consumed
 
 ID = "C14"
 ENGINE_NAME = "E2 history enumeration (no merging: every history is its own state)"
+SELFCHECK = False  # this property IS run-to-run determinism of the library: the generic harness self-check would mask it
 RULE = ("one evaluation = one operation history executed three times (seed s; seed s with numpy/random perturbed; seed s'); "
         "non-trivial = history contains at least one randomised operation besides construction; distinct = distinct "
         "(state type, history, seed)")
@@ -27,7 +28,7 @@ ASSUMPTIONS = ["CPU generator only (no GPU in the sandbox)", "construction draws
 COUNTS = ("states = histories x seeds (each history is a distinct state: no merging); transitions = operations executed across the three runs; "
           "traces_validated_against_impl = histories whose three runs satisfied all comparisons")
 
-OPS = ["reinit", "overwrite_space", "sample", "sample_one", "sample_init", "stats", "stats_one", "sysstats", "fit", "fit_neg", "grad", "exact", "rotate", "metric", "save", "apply"]
+OPS = ["reinit", "fit_saver", "overwrite_space", "sample", "sample_one", "sample_init", "stats", "stats_one", "sysstats", "fit", "fit_neg", "grad", "exact", "rotate", "metric", "save", "apply"]
 READONLY = {"overwrite_space", "sample", "sample_one", "stats_one", "sample_init", "stats", "sysstats", "grad", "exact", "rotate", "metric", "save", "apply"}
 DATA = torch.tensor([[0.0, 1.0], [1.0, 1.0], [1.0, 0.0]], dtype=torch.double)
 BASES = np.array([list("ZZ"), list("XY"), list("YZ")])
@@ -65,6 +66,10 @@ def params(st):
     return tuple(Hx(p) for net in st.networks for p in getattr(st, net).parameters())
 
 
+def weight_hashes(st):
+    return tuple((net + "." + n, Hx(p)) for net in st.networks for n, p in getattr(st, net).named_parameters() if "weights" in n)
+
+
 def do(op, st, tmp):
     L = lib()
     O = L.observables
@@ -76,6 +81,11 @@ def do(op, st, tmp):
         return None
     if op == "sample":
         return st.sample(k=3, num_samples=40)
+    if op == "fit_saver":
+        # training with the periodic model saver (all defaults) and a draw afterwards
+        sv = L.callbacks.ModelSaver(1, os.path.join(tmp, "sv"), "m{}.pt")
+        st.fit(DATA, epochs=2, pos_batch_size=2, k=1, lr=0.1, callbacks=[sv], **kw)
+        return st.sample(k=2, num_samples=8)
     if op == "overwrite_space":
         # the caller owns what generate_hilbert_space returned: advancing it in place is documented API
         own = st.generate_hilbert_space()
@@ -130,6 +140,7 @@ def run(kind, hist, seed, perturb, tmp, form="cpu"):
     r0 = random.getstate()
     st = L.types[kind](2, gpu=False)
     outs = [params(st)]
+    run.drawn = [weight_hashes(st)]  # weight tensors right after construction / each reinitialisation
     ro_bad = None
     for op in hist:
         if perturb:
@@ -140,6 +151,8 @@ def run(kind, hist, seed, perturb, tmp, form="cpu"):
         if op in READONLY and params(st) != before and ro_bad is None:
             ro_bad = op
         outs.append((Hx(r), params(st)))
+        if op == "reinit":
+            run.drawn.append(weight_hashes(st))
     consumed = (not perturb) and (numpy_random_consumed(n0) or random.getstate() != r0)
     return outs, ro_bad, consumed
 
@@ -156,13 +169,15 @@ def check_history(acc, kind, hist, seed, tmp, flagged):
 
     try:
         a, ro, consumed = run(kind, hist, seed, 0, tmp)
+        drawn_a = list(run.drawn)
         b, _, _ = run(kind, hist, seed, 77 + seed, tmp)
         c, _, _ = run(kind, hist, seed + 1, 0, tmp)
+        drawn_c = list(run.drawn)
     except LibRaised as e:
         flag(f"repro:raised:{e.kind}:{e.site}", e.tb)
         return
     acc.transitions += 3 * len(hist)
-    randomized = any(op in ("reinit", "overwrite_space", "sample", "sample_one", "stats_one", "sample_init", "stats", "sysstats", "fit", "fit_neg") for op in hist)
+    randomized = any(op in ("reinit", "fit_saver", "overwrite_space", "sample", "sample_one", "stats_one", "sample_init", "stats", "sysstats", "fit", "fit_neg") for op in hist)
     acc.ev(1, nontrivial=randomized)
     ok = True
     if a != b:
@@ -179,6 +194,14 @@ def check_history(acc, kind, hist, seed, tmp, flagged):
     elif a[0] == c[0]:
         flag("repro:different-seed-gives-identical-initial-parameters")
         ok = False
+    # every weight tensor of every network is (re)drawn from the seeded stream: with another seed each of
+    # them must come out different, after construction and after each reinitialisation
+    for wa, wc in zip(drawn_a, drawn_c):
+        same = [n for (n, ha), (_, hc) in zip(wa, wc) if ha == hc]
+        if same:
+            flag("repro:weights-independent-of-the-seed:" + same[0].split(".")[0], detail=dict(unchanged=same))
+            ok = False
+            break
     if consumed:
         flag("repro:foreign-random-source-consumed")
         ok = False
@@ -223,6 +246,21 @@ def run_item(item):
             if run(kind, (first,), 7, 0, tmp, form=form)[0] != base_run and "repro:seeding-call-form-does-not-seed:" + form not in flagged:
                 flagged.add("repro:seeding-call-form-does-not-seed:" + form)
                 acc.viol("repro:seeding-call-form-does-not-seed:" + form, dict(kind=kind, history=[first], seed=7, form=form))
+        # seeding fixes everything that is drawn afterwards, whatever the model held before: a model built
+        # under some other seed, then seeded and reinitialised, must come out the same
+        if first == "reinit":
+            outs_ = []
+            for prior in (101, 202):
+                L_ = lib()
+                L_.qucumber.set_random_seed(prior, cpu=True, gpu=False, quiet=True)
+                st_ = L_.types[kind](2, gpu=False)
+                L_.qucumber.set_random_seed(9, cpu=True, gpu=False, quiet=True)
+                st_.reinitialize_parameters()
+                outs_.append(params(st_))
+                acc.transitions += 1
+            if outs_[0] != outs_[1] and "repro:reinitialisation-after-seeding-depends-on-earlier-state" not in flagged:
+                flagged.add("repro:reinitialisation-after-seeding-depends-on-earlier-state")
+                acc.viol("repro:reinitialisation-after-seeding-depends-on-earlier-state", dict(kind=kind, history=["construct(other seed)", "set_random_seed", "reinit"], seed=9))
         third = OPS if tier == "quick" else OPS
         for b in OPS:
             for c in third:
